@@ -612,6 +612,9 @@ func (r *Runner) cmd(ctx context.Context, cm syntax.Command) {
 			}
 
 			for _, field := range items {
+				if r.stop(ctx) {
+					break
+				}
 				r.setVarString(name, field)
 				trace.stringf("for %s in", y.Name.Value)
 				if inToken {
